@@ -415,16 +415,14 @@ mutual
 /-- well-formed statements of a scope: every variable is a declared slot used at its declared type, expressions are
 well formed, conditions of IF / WHILE / DO are not strings, a missing ELSE part is empty, calls name an existing SUB
 with exactly the annotated parameters, DATA does not occur (it is hoisted: see the program theorem),
-`EXIT SUB / FUNCTION` occurs only in a procedure, and — **a hypothesis the proof forces** — a PRINT statement inside a
-procedure has at least one item (the real interpreter, like the VM model, drops the line break of an item-less PRINT
-executed by a function that is called from a PRINT item following `;` or `,`: see PROC_CASES.md) -/
+`EXIT SUB / FUNCTION` occurs only in a procedure -/
 def Wf (sg : Sigs) (sc : Scope) : SStmt → Prop
   | .skip => True
   | .comment => True
   | .seq a b => Wf sg sc a ∧ Wf sg sc b
   | .dim x t _ => sc.slots[x]? = some t
   | .assign x t e _ => sc.slots[x]? = some t ∧ EWf sg sc.slots e
-  | .print items _ => ItemsWf sg sc.slots items ∧ (sc.inProc = true → items ≠ [])
+  | .print items _ => ItemsWf sg sc.slots items
   | .ifBlock c thn elifs hasElse els _ =>
     EWf sg sc.slots c ∧ c.ty ≠ .str ∧ Wf sg sc thn ∧ WfElifs sg sc elifs ∧ Wf sg sc els ∧ (hasElse = false → els = .skip)
   | .while c body _ => EWf sg sc.slots c ∧ c.ty ≠ .str ∧ Wf sg sc body
